@@ -99,6 +99,11 @@ RULE = ("for each attrs class of swh.model.model, each SWHID class and Immutable
         "mutates it afterwards; twins: numeric keys 1/True/1.0, SWHID argument spellings (enum member / its value, CoreSWHID "
         "/ its string, bytes path / percent-encoded str, (a, b) / 'a-b'), the same fields in two SWHID classes (equal => "
         "equal hash), thorough: mappings of 200-3000 keys in two orders.  "
+        "twins 'unusual-eq': mapping values whose == is unusual - float nan, Decimal NaN, objects whose __eq__ is always "
+        "False / always True / raises, also nested in a list / tuple / dict inside the mapping - once with the SAME argument "
+        "objects used for two constructions (must be equal, hash alike, be one set member) and once separately built (model "
+        "and implementation must agree; equal => equal hash); 10 % of the str / bytes values and mapping keys carry a string / "
+        "bytes constant harvested from the source of the repository under test (harness/gitobj_common.source_tokens).  "
         "non-trivial = at least one kept container argument is mutated after construction, or twins "
         "differing only in insertion order / eq=False fields, or a transport batch, or a returned-container probe; distinct = distinct case")
 TRUSTED = [
@@ -114,6 +119,11 @@ TRUSTED = [
     "by pre_checks against the real classes (identity / mutation probes) and against Generated.v by C11_arg_kinds_table",
 ]
 ASSUMPTIONS = [
+    "values whose == is unusual (float nan, Decimal NaN, objects whose __eq__ is always False / raises) are atoms whose "
+    "equality is IDENTITY: that is what dict == and tuple == compute on /repo (`x is y or x == y`), hence what the inherited "
+    "Mapping.__eq__ and the attrs __eq__ compute; two objects built from the SAME argument objects are equal even when a "
+    "metadata value is not equal to itself; two objects built from two separately created NaNs are legitimately unequal; an "
+    "object whose __eq__ is always True is one atom; the model encodes one atom per such object (harness Enc.opaque)",
     "recorded behaviours of /repo that the probes do not count (reported to the coordinator): the SWHID classes and "
     "ImmutableDict are not slotted, so `vars(x)[name] = v` and `idict._data = ...` / `idict.anything = ...` succeed; "
     "re-calling `obj.__init__(...)` / `obj.__setstate__(...)` re-initialises a frozen attrs instance (attrs internals use "
@@ -240,6 +250,34 @@ def new_dict(sub):
     return {}
 
 
+class EqFalse:
+    """== is always False (even with itself); containers still find it equal to itself by identity"""
+    def __eq__(self, other):
+        return False
+    __hash__ = object.__hash__
+
+
+class EqTrue:
+    """== is always True"""
+    def __eq__(self, other):
+        return True
+
+    def __hash__(self):
+        return 0
+
+
+class EqRaises:
+    """== raises; containers never call it on the very same object (identity shortcut)"""
+    def __eq__(self, other):
+        raise RuntimeError("c11: __eq__ called")
+    __hash__ = object.__hash__
+
+
+# values whose == is unusual.  Rule (ASSUMPTIONS): such a value is an ATOM WHOSE EQUALITY IS IDENTITY - what dict == and
+# tuple == do on /repo (they compare `x is y or x == y`) - except EqTrue, equal to everything of its kind.
+OPAQUE_IDENTITY = ("nan", "dnan", "eqf", "eqr")
+OPAQUE = OPAQUE_IDENTITY + ("eqt",)
+
 NOARG = object()         # ImmutableDict() with no argument: the default-argument object of __init__
 
 
@@ -307,6 +345,17 @@ def build(spec, kept, frozen=None, plain=False):
         return ba
     if t == "noarg":
         return NOARG
+    if t == "nan":
+        return float("nan")                 # a NEW nan object each time it is built
+    if t == "dnan":
+        import decimal
+        return decimal.Decimal("NaN")
+    if t == "eqf":
+        return EqFalse()
+    if t == "eqt":
+        return EqTrue()
+    if t == "eqr":
+        return EqRaises()
     if t == "I":
         _, ImmutableDict = _classes()
         slot = None
@@ -355,11 +404,17 @@ class Enc:
         self.cells = []
         self.kept_handles = []
         self.frozen_vals = []       # "I<h>" of every already-frozen mapping, in build() order
+        self.opaque = 0             # one atom per OBJECT for the values whose equality is identity
 
     def val(self, spec):
         if spec is None:
             return "N"
         t = spec[0]
+        if t in OPAQUE_IDENTITY:
+            self.opaque += 1
+            return "A09" + ("%s-%d" % (t, self.opaque)).encode().hex()
+        if t == "eqt":
+            return "A0a"
         if t in ("b", "s", "i", "f", "B", "e", "dt"):
             return "A" + spec_atom_hex(spec)
         if t in ("t", "g", "z"):        # generators / zips of pairs: iterated once, like a tuple
@@ -449,11 +504,35 @@ def rb(rng, n):
     return ["b", bytes(rng.randrange(256) for _ in range(n)).hex()]
 
 
+_SPLICE = [True]
+
+
+def spliced(rng, spec):
+    """10 % of the str / bytes values carry a string / bytes constant harvested from the source of the repository under test"""
+    if not _SPLICE[0] or rng.random() >= 0.10:
+        return spec
+    try:
+        from . import gitobj_common
+        if spec[0] == "b":
+            return ["b", gitobj_common.splice_token(rng, bytes.fromhex(spec[1]), "bytes").hex()]
+        return ["s", gitobj_common.splice_token(rng, spec[1], "str")]
+    except Exception:
+        return spec
+
+
 def rbytes(rng):
-    return rb(rng, rng.choice([0, 1, 3, 8])) if rng.random() < 0.8 else ["b", rng.choice([b"a\nb", b"\xff\x00", b" "]).hex()]
+    return spliced(rng, rbytes0(rng))
 
 
 def rstr(rng):
+    return spliced(rng, rstr0(rng))
+
+
+def rbytes0(rng):
+    return rb(rng, rng.choice([0, 1, 3, 8])) if rng.random() < 0.8 else ["b", rng.choice([b"a\nb", b"\xff\x00", b" "]).hex()]
+
+
+def rstr0(rng):
     return ["s", rng.choice(["", "a", "key", "https://example.org/x", "été", "k%d" % rng.randrange(100), "a b"])]
 
 
@@ -494,7 +573,10 @@ def rmeta_items(rng, hashable=False):
         v = rmeta_value(rng)
         while hashable and v is not None and v[0] in ("l", "d"):
             v = rmeta_value(rng)
-        items.append([["s", k], v])
+        ks = spliced(rng, ["s", k])
+        if any(ks == k0 for k0, _ in items):
+            ks = ["s", k]
+        items.append([ks, v])
     return items
 
 
@@ -688,7 +770,16 @@ NOT_INSTANTIABLE = {"BaseContent"}      # abstract (checked in pre_checks)
 
 def gen_obj(rng, cname, hashable=False):
     g = GENS[cname]
-    return g(rng, True) if hashable and cname in HASHABLE_PARAM else g(rng)
+    spec = g(rng, True) if hashable and cname in HASHABLE_PARAM else g(rng)
+    if _SPLICE[0] and not builds(no_oneshot(spec)[2], cname):
+        # a spliced literal made the arguments invalid (a key that means something, a refused value ...): the generators
+        # only promise VALID arguments - draw again without the literal dictionary
+        _SPLICE[0] = False
+        try:
+            spec = g(rng, True) if hashable and cname in HASHABLE_PARAM else g(rng)
+        finally:
+            _SPLICE[0] = True
+    return spec
 
 
 def fresh_value(rng, k):
@@ -1236,6 +1327,49 @@ def g_core_fixed(oid, t):
                                ["object_type", ["e", "ObjectType", t]]]]
 
 
+def unusual_value(rng, depth=0):
+    r = rng.random()
+    if r < 0.55 or depth >= 2:
+        return [rng.choice(["nan", "nan", "dnan", "eqf", "eqt", "eqr"])]
+    if r < 0.7:
+        return ["l", [unusual_value(rng, depth + 1), ["i", 1]]]
+    if r < 0.85:
+        return ["t", [["s", "x"], unusual_value(rng, depth + 1)]]
+    return ["d", [[["s", "in"], unusual_value(rng, depth + 1)]]]
+
+
+def _has_spec(x, names):
+    if isinstance(x, list):
+        if x and isinstance(x[0], str) and x[0] in names and len(x) == 1:
+            return True
+        return any(_has_spec(y, names) for y in x)
+    return False
+
+
+def unusual_eq_cases(rng, cname):
+    """values whose == is unusual inside a mapping (NaN, Decimal NaN, == always False / always True / raising), also nested.
+    shared: ONE set of argument objects used for two constructions (dict == / tuple == find a value equal to ITSELF by
+    identity: the two objects are equal); distinct: two separately built sets (a NaN is not equal to another NaN)."""
+    out = []
+    items = [[["s", "k%d" % i], unusual_value(rng)] for i in range(rng.choice([1, 2, 3]))]
+    items += rmeta_items(rng, hashable=True)[:2]
+    items = [it for i, it in enumerate(items) if all(it[0] != jt[0] for jt in items[:i])]
+    rng.shuffle(items)
+    if cname == "ImmutableDict":
+        args = [["data", [rng.choice(["d", "I"]), items]]]
+    else:
+        a = gen_obj(rng, cname, hashable=True)
+        if "metadata" not in [f for f, _ in a[2]]:
+            return out
+        args = [[f, ([rng.choice(["d", "I"]), items] if f == "metadata" else v)] for f, v in no_oneshot(a)[2]]
+    if not builds(args, cname):
+        return out
+    out.append({"kind": "twins", "cls": cname, "variation": "unusual-eq-shared", "args1": args, "args2": args})
+    if not _has_spec(args, ("eqr",)):       # two distinct objects whose == raises: comparing them raises, nothing to check
+        out.append({"kind": "twins", "cls": cname, "variation": "unusual-eq-distinct", "args1": args, "args2": args})
+    return out
+
+
 def twins_cases(rng, cname):
     out = []
     a = gen_obj(rng, cname, hashable=rng.random() < 0.8)
@@ -1298,6 +1432,8 @@ def gen(rng, tier):
                 cases.append(fd)
             cases += twins_cases(rng, cname)
             cases += spelled_cases(rng, cname)
+        for _ in range(3 if tier == "quick" else 60):
+            cases += unusual_eq_cases(rng, cname)
         for k in range(n_acc):
             ac = accessor_case(rng, cname, "fromdict" if k % 3 == 2 else "ctor")
             if ac:
@@ -1318,6 +1454,7 @@ def gen(rng, tier):
     for _ in range(n_obj * 3):
         cases.append(idict_case(rng))
         cases += spelled_cases(rng, "ImmutableDict")
+        cases += unusual_eq_cases(rng, "ImmutableDict")
         items = rmeta_items(rng, hashable=rng.random() < 0.8)
         cases.append({"kind": "twins", "cls": "ImmutableDict", "variation": "same",
                       "args1": [["data", ["d", items]]], "args2": [["data", ["d", items]]]})
@@ -1358,7 +1495,8 @@ def nontrivial(c):
         return _mutated_containers(c) >= 1
     if c["kind"] == "twins":
         return c["variation"] in ("noneq-fields", "nested-noneq", "permuted", "dict-vs-idict",
-                                  "equal-but-differently-spelled") or (
+                                  "equal-but-differently-spelled", "unusual-eq-shared", "unusual-eq-distinct",
+                                  "swhid-spelling") or (
             c["variation"] == "same-objects" and any(v is not None and v[0] in ("I", "d") for _, v in c["args1"]))
     if c["kind"] == "perms":
         return len(c["items"]) >= 2
@@ -1893,7 +2031,7 @@ def _item_del(obj, key):
 
 def impl_twins(c):
     try:
-        if c["variation"] == "same-objects":
+        if c["variation"] in ("same-objects", "unusual-eq-shared"):
             built = _build_args(c["cls"], "ctor", c["args1"], [], [])
             x = _make(c["cls"], "ctor", built)
             y = _make(c["cls"], "ctor", built)
@@ -1902,7 +2040,10 @@ def impl_twins(c):
             y = _construct(c.get("cls2", c["cls"]), "ctor", c["args2"], [])
     except Exception as e:
         return {"error": "raises", "exc": core.exc_class(e), "msg": str(e)[:120]}
-    res = {"eq12": bool(x == y), "eq21": bool(y == x), "ne12": bool(x != y)}
+    try:
+        res = {"eq12": bool(x == y), "eq21": bool(y == x), "ne12": bool(x != y)}
+    except Exception as e:
+        return {"compare_raises": "%s: %s" % (type(e).__name__, str(e)[:80])}
     for n, o in (("h1", x), ("h2", y)):
         try:
             res[n] = hash(o)
@@ -2299,7 +2440,7 @@ def requests(c):
     if c["kind"] == "twins":
         enc = Enc()
         a1 = enc_args(c["args1"], enc)
-        a2 = a1 if c["variation"] == "same-objects" else enc_args(c["args2"], enc)   # same handles = same objects
+        a2 = a1 if c["variation"] in ("same-objects", "unusual-eq-shared") else enc_args(c["args2"], enc)   # same handles / atoms = same objects
         return ["twins new %d %s %s %s %s" % (FUEL, c["cls"].encode().hex(), enc.store(), a1, a2)]
     if c["kind"] == "perms":
         reqs = []
@@ -2447,10 +2588,14 @@ def oracle(c, ires, mres):
                     return "%s(%s) changed the object's %s" % (st[0], st[1], ",".join(chg))
         return None
     if c["kind"] == "twins":
+        if "compare_raises" in ires:
+            return ("comparing two %s built from %s raised %s" % (
+                c["cls"], "the same argument objects" if c["variation"] in ("same-objects", "unusual-eq-shared") else
+                "equal arguments (%s)" % c["variation"], ires["compare_raises"]))
         if ires["eq12"] != ires["eq21"] or ires["eq12"] == ires["ne12"]:
             return "== is not symmetric / != is not its negation"
         if c["variation"] in ("same", "same-objects", "noneq-fields", "nested-noneq", "permuted", "dict-vs-idict",
-                              "equal-but-differently-spelled", "swhid-spelling") and not ires["eq12"]:
+                              "equal-but-differently-spelled", "swhid-spelling", "unusual-eq-shared") and not ires["eq12"]:
             return "objects built from equal arguments (%s) are not equal" % c["variation"]
         if ires["eq12"] and ires["h1"] != "U" and ires["h2"] != "U":
             if ires["h1"] != ires["h2"]:
@@ -2458,7 +2603,7 @@ def oracle(c, ires, mres):
             if not ires.get("dict_key") or not ires.get("set_member") or ires.get("set_size") != 1:
                 return "equal objects do not act as the same dict key / set member"
         if ires["eq12"] and c["variation"] in ("same", "same-objects", "equal-but-differently-spelled", "swhid-spelling",
-                                               "cross-class") \
+                                               "cross-class", "unusual-eq-shared", "unusual-eq-distinct") \
                 and (ires["h1"] == "U") != (ires["h2"] == "U"):
             return "objects built from the same arguments: one hashable, one not"
         return None
@@ -2527,6 +2672,8 @@ def compare(c, ires, mres):
                 c["variation"], ires.get("exc"), ires.get("msg", ""))
         return None
     if c["kind"] == "twins":
+        if "compare_raises" in ires:
+            return "the implementation's == raised (%s); the model compares without raising" % ires["compare_raises"]
         if ("error" in ires) != ("error" in mres):
             return "construction: implementation %s, model %s" % (ires.get("exc", "ok"), mres.get("raw", "ok"))
         if "error" in ires:
